@@ -22,9 +22,11 @@ No address translation (`tr = []`).
                                       section of the prefix run is the zeroed one (only without
                                       segments) or has the same header fields with data absent or
                                       the same bytes.  Hypothesis: len < 2^63, no translation.
-Not covered by a theorem (family docstring): section NAMES (a zeroed section gets the string at
-offset 0 of the name table, which is empty only if the table starts with NUL — the one place
-where well-formedness of the image is needed) and the accessor read-outs (separate families).
+                                      Section names: for equal name offsets the prefix run's name
+                                      is empty or the same string.
+Not covered by a theorem (family docstring): the NAME of a zeroed section (it is the string at
+offset 0 of the name table — empty only if the table starts with NUL: the one place where
+well-formedness of the image is needed) and the accessor read-outs (separate families).
 -/
 import ElfioVerif.Props.C01
 namespace ElfioVerif.C17
@@ -1090,6 +1092,119 @@ theorem loadSegmentsLoop_sim (c : Cls) (enc : Enc) (img : Bytes) (k : Nat) (kind
       obtain ⟨r1, r2, -⟩ := ih (i + 1) _ _ _ _ f5 (fun _ => hrel) hacc' hok
       exact ⟨r1, r2, fun _ => hnf0⟩
 
+/-! ### section names in both runs -/
+
+@[simp] theorem decodeShdr_name (c enc r b) : (decodeShdr c enc r b).name = b.name := by cases c <;> rfl
+
+theorem secLoadData_name (c : Cls) (tr : List Trans) (ls : LoadSt) (b : SecBuf) :
+    (secLoadData c tr ls b).2.1.name = b.name := by
+  rw [secLoadData_eq]
+  repeat' split
+  all_goals rfl
+
+theorem secGetData_name (c : Cls) (tr : List Trans) (ls : LoadSt) (b : SecBuf) :
+    (secGetData c tr ls b).2.name = b.name := by
+  rw [secGetData_eq]
+  split
+  · split
+    · exact secLoadData_name c tr ls b
+    · exact secLoadData_name c tr ls b
+  · rfl
+
+/-- `section_impl::load` leaves the name empty (names are resolved afterwards) -/
+theorem secLoad_name (c : Cls) (enc : Enc) (tr : List Trans) (ls : LoadSt) (hdrOff : Int) (isLazy : Bool)
+    (idx : Nat) : (secLoad c enc tr ls hdrOff isLazy idx).2.name = [] := by
+  rw [secLoad_eq]
+  split
+  · rfl
+  · split
+    · exact (secGetData_name c tr _ _).trans (by simp [secHdrOnly, secB0])
+    · simp [secHdrOnly, secB0]
+
+theorem loadSectionsLoop_names (c : Cls) (enc : Enc) (tr : List Trans) (isLazy : Bool) (shoff : Int)
+    (entsize : Nat) :
+    ∀ (n i : Nat) (ls : LoadSt) (acc : List SecBuf), (∀ b ∈ acc, b.name = []) →
+      ∀ b ∈ (loadSectionsLoop c enc tr isLazy shoff entsize n i ls acc).2, b.name = [] := by
+  intro n
+  induction n with
+  | zero => intro i ls acc hacc b hb; exact hacc b (by simpa [loadSectionsLoop] using hb)
+  | succ n ih =>
+    intro i ls acc hacc
+    rw [loadSectionsLoop_succ]
+    apply ih
+    intro b hb
+    rcases List.mem_cons.mp hb with rfl | hb
+    · exact secLoad_name ..
+    · exact hacc b hb
+
+theorem ListRel.and_mem {α β : Type} {R : α → β → Prop} {P : α → Prop} {Q : β → Prop} {as : List α}
+    {bs : List β} (h : ListRel R as bs) (hp : ∀ a ∈ as, P a) (hq : ∀ b ∈ bs, Q b) :
+    ListRel (fun a b => R a b ∧ P a ∧ Q b) as bs := by
+  induction h with
+  | nil => exact .nil
+  | cons hr _ ih =>
+    exact .cons ⟨hr, hp _ (List.mem_cons_self ..), hq _ (List.mem_cons_self ..)⟩
+      (ih (fun a ha => hp a (List.mem_cons_of_mem _ ha)) (fun b hb => hq b (List.mem_cons_of_mem _ hb)))
+
+/-- names of corresponding sections: for the same name offset the prefix run's name is empty
+    (no name table data in the prefix) or the same string -/
+def NameRel (bp bf : SecBuf) : Prop := bp.nameOff = bf.nameOff → bp.name = [] ∨ bp.name = bf.name
+
+theorem getString_none_data (b : SecBuf) (idx : BitVec 32) (h : b.data = none) : getString b idx = .ok none := by
+  unfold getString; rw [h]; rfl
+
+theorem getString_congr {bp bf : SecBuf} (hd : bp.data = bf.data) (hs : bp.size = bf.size) (idx : BitVec 32) :
+    getString bp idx = getString bf idx := by
+  unfold getString; rw [hd, hs]
+
+theorem namesPure_names (c : Cls) (enc : Enc) (hdr : Bytes) (img : Bytes) (k : Nat) (kind : StreamKind)
+    (hlen : img.length < 9223372036854775808) (lsp lsf : LoadSt) (secsp secsf : List SecBuf)
+    (hs : Sim2 img k kind lsp lsf) (hrel : ListRel (SecRelI lsp.st.fail) secsp secsf)
+    (hip : ∀ b ∈ secsp, LoadedSec [] b (img.take k)) (hif : ∀ b ∈ secsf, LoadedSec [] b img)
+    (hnp : ∀ b ∈ secsp, b.name = []) (hnf : ∀ b ∈ secsf, b.name = []) :
+    ListRel NameRel (namesPure c enc [] hdr lsp secsp).2 (namesPure c enc [] hdr lsf secsf).2 := by
+  have hlk := take_length_le img k
+  have hrel' := hrel.and_mem hnp hnf
+  have hempty : ListRel NameRel secsp secsf := hrel'.mono (fun a b hab _ => Or.inl hab.2.1)
+  unfold namesPure
+  split
+  · exact hempty
+  · rcases hrel.getElem? (Hdr.e_shstrndx c enc hdr).toNat with ⟨e1, e2⟩ | ⟨bp, bf, e1, e2, hr⟩
+    · rw [e1, e2]; exact hempty
+    · rw [e1, e2]
+      dsimp only
+      have ip := hip bp (List.mem_of_getElem? e1)
+      have jf := hif bf (List.mem_of_getElem? e2)
+      obtain ⟨pP, -⟩ := secGetData_pure c lsp bp (img.take k) hs.p.data ip (by omega)
+      obtain ⟨pF, -⟩ := secGetData_pure c lsf bf img hs.f.data jf hlen
+      have rel1 := getDataPure_rel hr.1 ip jf hlen
+      rw [← pP, ← pF] at rel1
+      have hne : (secGetData c [] lsp bp).2.name = [] ∧ (secGetData c [] lsf bf).2.name = [] :=
+        ⟨(secGetData_name ..).trans (hnp bp (List.mem_of_getElem? e1)),
+         (secGetData_name ..).trans (hnf bf (List.mem_of_getElem? e2))⟩
+      have hset : ListRel (fun a b => a.name = [] ∧ b.name = [])
+          (secsp.set (Hdr.e_shstrndx c enc hdr).toNat (secGetData c [] lsp bp).2)
+          (secsf.set (Hdr.e_shstrndx c enc hdr).toNat (secGetData c [] lsf bf).2) :=
+        (hrel'.mono (fun a b hab => hab.2)).set _ hne
+      refine hset.map _ _ ?_
+      intro a b ⟨ha, hb⟩
+      rw [withName_eq, withName_eq]
+      intro hoff
+      change a.nameOff = b.nameOff at hoff
+      show nameOf _ a = [] ∨ nameOf _ a = nameOf _ b
+      cases hd : (secGetData c [] lsp bp).2.data with
+      | none =>
+        left; unfold nameOf; rw [getString_none_data _ _ hd]; exact ha
+      | some d =>
+        right
+        have hcong : ∀ idx, getString (secGetData c [] lsp bp).2 idx = getString (secGetData c [] lsf bf).2 idx := by
+          cases rel1 with
+          | zero _ hz => rw [hz.data] at hd; cases hd
+          | never _ hdn _ => rw [hdn] at hd; cases hd
+          | both hsf hdd _ _ _ => exact fun idx => getString_congr hdd hsf.size idx
+        unfold nameOf
+        rw [hcong, hoff, ha, hb]
+
 /-! ### the phases of `load` in both runs -/
 
 /-- what the two loads have in common when the load of the prefix succeeds -/
@@ -1099,6 +1214,7 @@ structure PrefixSound (f : Bool) (rp rf : LoadRes) : Prop where
   cls : rp.obj.cls = rf.obj.cls
   enc : rp.obj.enc = rf.obj.enc
   secs : ListRel (SecRelI f) rp.obj.secs rf.obj.secs
+  names : ListRel NameRel rp.obj.secs rf.obj.secs
   segs : ListRel SegRel rp.obj.segs rf.obj.segs
   /-- with at least one segment the prefix run's stream never failed: no zeroed section -/
   nofail : rp.obj.segs ≠ [] → f = false
@@ -1109,7 +1225,8 @@ theorem loadSegmentsLoop_zero_segs (c enc tr isLazy phoff entsize secs i ls) :
 theorem loadSegsPhase_sim (o : Obj) (c : Cls) (enc : Enc) (hdr : Bytes) (isLazy : Bool) (htr : o.trans = [])
     (img : Bytes) (k : Nat) (kind : StreamKind) (hlen : img.length < 9223372036854775808)
     (lsp lsf : LoadSt) (secsp secsf : List SecBuf) (hs : Sim2 img k kind lsp lsf)
-    (hrel : ListRel (SecRelI lsp.st.fail) secsp secsf) (rp rf : LoadRes)
+    (hrel : ListRel (SecRelI lsp.st.fail) secsp secsf) (hnames : ListRel NameRel secsp secsf)
+    (rp rf : LoadRes)
     (hp : loadSegsPhase o c enc hdr isLazy lsp secsp = .ok rp)
     (hf : loadSegsPhase o c enc hdr isLazy lsf secsf = .ok rf) (hok : rp.ok = true) :
     PrefixSound lsp.st.fail rp rf := by
@@ -1127,7 +1244,7 @@ theorem loadSegsPhase_sim (o : Obj) (c : Cls) (enc : Enc) (hdr : Bytes) (isLazy 
     obtain ⟨r1, r2, r3⟩ := loadSegmentsLoop_sim c enc img k kind hlen isLazy (Hdr.e_phoff c enc hdr).toInt
       (Hdr.e_phentsize c enc hdr).toNat secsp secsf (Hdr.e_phnum c enc hdr).toNat 0 lsp lsf [] [] hs hsecs
       .nil hok
-    refine ⟨r1, rfl, rfl, rfl, hrel, r2, ?_⟩
+    refine ⟨r1, rfl, rfl, rfl, hrel, hnames, r2, ?_⟩
     intro hne
     apply r3
     rcases Nat.eq_zero_or_pos (Hdr.e_phnum c enc hdr).toNat with h0 | h0
@@ -1153,7 +1270,7 @@ theorem loadAfterHdr_sim (o : Obj) (c : Cls) (enc : Enc) (hdr : Bytes) (isLazy :
     have e1 : loadSecs0 c enc [] hdr isLazy sp = ({ st := sp }, []) := by unfold loadSecs0; rw [if_pos hbad]
     have e2 : loadSecs0 c enc [] hdr isLazy sf = ({ st := sf }, []) := by unfold loadSecs0; rw [if_pos hbad]
     rw [e1] at hp; rw [e2] at hf
-    exact ⟨_, loadSegsPhase_sim o c enc hdr isLazy htr img k sf.kind hlen _ _ [] [] h0 .nil rp rf hp hf hok⟩
+    exact ⟨_, loadSegsPhase_sim o c enc hdr isLazy htr img k sf.kind hlen _ _ [] [] h0 .nil .nil rp rf hp hf hok⟩
   · rw [if_neg hbad] at hp hf
     have e1 : loadSecs0 c enc [] hdr isLazy sp = loadSectionsLoop c enc [] isLazy (Hdr.e_shoff c enc hdr).toInt
         (Hdr.e_shentsize c enc hdr).toNat (Hdr.e_shnum c enc hdr).toNat 0 { st := sp } [] := by
@@ -1170,7 +1287,12 @@ theorem loadAfterHdr_sim (o : Obj) (c : Cls) (enc : Enc) (hdr : Bytes) (isLazy :
     rw [← e1, ← e2] at l1 l2
     rw [hs.dp] at p2; rw [hs.df] at q2
     obtain ⟨n1, n2⟩ := namesPure_sim c enc hdr img k sf.kind hlen _ _ _ _ l1 l2 p2 q2
-    exact ⟨_, loadSegsPhase_sim o c enc hdr isLazy htr img k sf.kind hlen _ _ _ _ n1 n2 rp rf hp hf hok⟩
+    have m1 : ∀ b ∈ (loadSecs0 c enc [] hdr isLazy sp).2, b.name = [] := by
+      rw [e1]; exact loadSectionsLoop_names c enc [] isLazy _ _ _ 0 _ [] (fun b hb => by cases hb)
+    have m2 : ∀ b ∈ (loadSecs0 c enc [] hdr isLazy sf).2, b.name = [] := by
+      rw [e2]; exact loadSectionsLoop_names c enc [] isLazy _ _ _ 0 _ [] (fun b hb => by cases hb)
+    have n3 := namesPure_names c enc hdr img k sf.kind hlen _ _ _ _ l1 l2 p2 q2 m1 m2
+    exact ⟨_, loadSegsPhase_sim o c enc hdr isLazy htr img k sf.kind hlen _ _ _ _ n1 n2 n3 rp rf hp hf hok⟩
 
 /-- **prefix_sound**: for EVERY byte string `img` shorter than 2^63 (well-formed or not) and every
     prefix length `k`: if loading the prefix succeeds (`ok = true`), then loading the complete
@@ -1226,14 +1348,19 @@ theorem prefix_sound_section (o : Obj) (htr : o.trans = []) (img : Bytes) (k : N
     rp.obj.secs.length = rf.obj.secs.length ∧
     ∀ (i : Nat) (bp : SecBuf), rp.obj.secs[i]? = some bp → ∃ bf, rf.obj.secs[i]? = some bf ∧
       (SecZero bp ∨ SameFields bp bf) ∧ (bp.data = none ∨ bp.data = bf.data) ∧ bp.index = bf.index ∧
-      (rp.obj.segs ≠ [] → SameFields bp bf) := by
+      (rp.obj.segs ≠ [] → SameFields bp bf) ∧
+      (bp.nameOff = bf.nameOff → bp.name = [] ∨ bp.name = bf.name) := by
   obtain ⟨f, h⟩ := prefix_sound o htr img k kind isLazy hlen rp rf hp hf hok
   refine ⟨h.secs.length_eq, ?_⟩
   intro i bp hi
   rcases h.secs.getElem? i with ⟨e1, -⟩ | ⟨a, b, e1, e2, hr⟩
   · rw [e1] at hi; cases hi
   · rw [e1] at hi; cases hi
-    refine ⟨b, e2, hr.1.sound.1, hr.1.sound.2, hr.2, ?_⟩
+    have hnm : bp.nameOff = b.nameOff → bp.name = [] ∨ bp.name = b.name := by
+      rcases h.names.getElem? i with ⟨e3, -⟩ | ⟨a', b', e3, e4, hn⟩
+      · rw [e1] at e3; cases e3
+      · rw [e1] at e3; rw [e2] at e4; cases e3; cases e4; exact hn
+    refine ⟨b, e2, hr.1.sound.1, hr.1.sound.2, hr.2, ?_, hnm⟩
     intro hne
     have hf0 := h.nofail hne
     subst hf0
